@@ -218,23 +218,26 @@ type callArgs struct {
 
 // callObs is the observation record of one call: facts only.
 type callObs struct {
-	drained     int // bytes the pre-drain took
-	moved       int // bytes the pre-compaction discarded from the front
-	status      string
-	srcRi       int
-	srcOK       bool
-	dstWiBefore int
-	dstWiAfter  int
-	dstRi       int
-	dstPos      uint64
-	dstClosed   bool
-	dstPrefixOK bool
-	dstLen      int
-	out         []byte
-	workMin     uint64
-	workMax     uint64
-	histHas     bool
-	hist        uint64
+	drained int // bytes the pre-drain took
+	moved   int // bytes the pre-compaction discarded from the front
+	status  string
+	srcRi   int
+	srcOK   bool
+	// mallocs, frees: allocator calls during the decoder call (-1: this build
+	// cannot tell)
+	mallocs, frees int
+	dstWiBefore    int
+	dstWiAfter     int
+	dstRi          int
+	dstPos         uint64
+	dstClosed      bool
+	dstPrefixOK    bool
+	dstLen         int
+	out            []byte
+	workMin        uint64
+	workMax        uint64
+	histHas        bool
+	hist           uint64
 }
 
 func (d *driver) call(a callArgs) callObs {
@@ -290,6 +293,7 @@ func (d *driver) call(a callArgs) callObs {
 	o.workMax = d.r64()
 	o.histHas = d.r8() != 0
 	o.hist = d.r64()
+	o.mallocs, o.frees = int(int32(d.r32())), int(int32(d.r32()))
 	return o
 }
 
